@@ -268,6 +268,7 @@ func runC05(c *eng.Ctx) {
 	ruleRebuiltIndexStartsEmpty(c)
 	ruleEpochRecoveryAssignsEveryMissingEpoch(c)
 	ruleRebuildIndexAcceptsGaps(c)
+	ruleRebuildDoesNotBoundSizesBySegmentLimit(c)
 	if fn := c.Fn(cl + "(*segment).setupIndex"); fn != nil {
 		// An append writes the log, then the index. A crash in between leaves log bytes the index does not describe: the write
 		// position comes from the file size, the next offset from the index, so the next append re-uses the orphan's offset
